@@ -18,10 +18,12 @@ type symTab struct {
 	allNonneg bool         // every symbol denotes a non-negative integer (unsigned machine words)
 	wordMax   *Q           // if set: every symbol is at most this (2^64-1); used by interval reasoning only
 	signed    map[Sym]bool // exceptions when allNonneg is false: symbols that may be negative
+	implLo    map[Sym]Q    // implicit machine-word bounds, used by interval reasoning only (never put into an LP)
+	implHi    map[Sym]Q
 }
 
 func newSymTab() *symTab {
-	return &symTab{byName: map[string]Sym{}, global: map[Sym]bool{}, signed: map[Sym]bool{}}
+	return &symTab{byName: map[string]Sym{}, global: map[Sym]bool{}, signed: map[Sym]bool{}, implLo: map[Sym]Q{}, implHi: map[Sym]Q{}}
 }
 
 func (t *symTab) nonneg(s Sym) bool { return t.allNonneg && !t.signed[s] }
@@ -193,19 +195,28 @@ func (s *State) ivMax(d Lin) (Q, bool) {
 		if c.Sign() > 0 {
 			u, ok := s.ub[sy]
 			if !ok {
-				if s.tab == nil || s.tab.wordMax == nil {
+				if s.tab == nil {
 					return Q{}, false
 				}
-				u = *s.tab.wordMax
+				if hi, has := s.tab.implHi[sy]; has {
+					u = hi
+				} else if s.tab.wordMax != nil {
+					u = *s.tab.wordMax
+				} else {
+					return Q{}, false
+				}
 			}
 			r = r.Add(c.Mul(u))
 		} else {
 			l, ok := s.lb[sy]
 			if !ok {
-				if !s.isNonneg(sy) {
+				if s.isNonneg(sy) {
+					l = qi(0)
+				} else if lo, has := s.tab.implLo[sy]; has {
+					l = lo
+				} else {
 					return Q{}, false
 				}
-				l = qi(0)
 			}
 			r = r.Add(c.Mul(l))
 		}
@@ -229,6 +240,24 @@ func (s *State) le(a Lin) {
 	if len(a.t) == 1 {
 		for sy, c := range a.t {
 			bnd := a.k.Neg().Div(c)
+			// a bound outside the machine-word range of the symbol is a contradiction
+			if s.tab != nil {
+				if c.Sign() < 0 {
+					if hi, has := s.tab.implHi[sy]; has && bnd.Cmp(hi) > 0 {
+						s.cons = append(s.cons, linI(1))
+						s.cache = map[string]lpRes{}
+						return
+					}
+				} else if lo, has := s.tab.implLo[sy]; has && bnd.Cmp(lo) < 0 {
+					s.cons = append(s.cons, linI(1))
+					s.cache = map[string]lpRes{}
+					return
+				} else if s.isNonneg(sy) && bnd.Sign() < 0 {
+					s.cons = append(s.cons, linI(1))
+					s.cache = map[string]lpRes{}
+					return
+				}
+			}
 			if c.Sign() > 0 {
 				if o, ok := s.ub[sy]; !ok || bnd.Cmp(o) < 0 {
 					s.ub[sy] = bnd
@@ -649,6 +678,8 @@ type tmplHead struct {
 	dropped  []bool
 	meta     map[string]string
 	rounds   int
+	idSyms   map[Sym]bool // non-global symbols of unchanged values: bounded through the same templates
+	entryVal map[string]Lin // value a loop-carried variable had when the merge point was first reached
 }
 
 type hullCtx struct {
@@ -658,6 +689,10 @@ type hullCtx struct {
 	liveAt  func(blk int) map[string]bool // variables live at block entry (nil = all)
 	maxDirs int
 	globals []Lin // constraints over global symbols only: invariant, re-added after every hull
+	onPhi   func(key string, s Sym)
+	diffAnchors bool // also try (p-q)-a style directions
+	idPairs      bool // symbols of unchanged values take part in pair templates
+	localAnchors bool // unchanged (loop-invariant) values serve as anchors even when not global
 }
 
 func (h *hullCtx) onlyGlobal(l Lin) bool {
@@ -708,13 +743,11 @@ func (h *hullCtx) hull(key int, blk int, ins []*AbsState, widen bool) *AbsState 
 			continue
 		}
 		first := ins[0].vals[k]
-		same := h.onlyGlobal(first)
-		if same {
-			for _, in := range ins[1:] {
-				if !in.vals[k].Equal(first) {
-					same = false
-					break
-				}
+		same := true
+		for _, in := range ins[1:] {
+			if !in.vals[k].Equal(first) {
+				same = false
+				break
 			}
 		}
 		if kv, kept := hd.keep[k]; kept && same && !kv.Equal(first) {
@@ -724,8 +757,17 @@ func (h *hullCtx) hull(key int, blk int, ins []*AbsState, widen bool) *AbsState 
 			hd.keep[k] = first
 			continue
 		}
+		if old, had := hd.keep[k]; had {
+			if hd.entryVal == nil {
+				hd.entryVal = map[string]Lin{}
+			}
+			hd.entryVal[k] = old
+		}
 		delete(hd.keep, k)
 		hd.phiSym[k] = h.tab.get(fmt.Sprintf("φ%d.%s", key, k))
+		if h.onPhi != nil {
+			h.onPhi(k, hd.phiSym[k])
+		}
 		newPhi = true
 	}
 	for k := range hd.keep {
@@ -754,9 +796,43 @@ func (h *hullCtx) hull(key int, blk int, ins []*AbsState, widen bool) *AbsState 
 			meta[k] = v
 		}
 	}
-	if newPhi || len(hd.dirs) == 0 {
-		h.makeDirs(hd)
+	// anchors of this merge point: the global ones plus the values that are unchanged here
+	// (loop-invariant inside an inner loop) and not constant
+	localAnchors := append([]Lin{}, h.anchors...)
+	{
+		var ks []string
+		for k := range hd.keep {
+			ks = append(ks, k)
+		}
+		sort.Strings(ks)
+		seenA := map[string]bool{}
+		for _, a := range localAnchors {
+			seenA[a.key()] = true
+		}
+		for _, k := range ks {
+			v := hd.keep[k]
+			if v.isConst() || seenA[v.key()] || len(v.t) > 3 || (!h.localAnchors && !h.onlyGlobal(v) && !(h.diffAnchors && len(v.t) == 1)) {
+				continue
+			}
+			seenA[v.key()] = true
+			localAnchors = append(localAnchors, v)
+		}
+		if len(localAnchors) > 10 {
+			localAnchors = localAnchors[:10]
+		}
 	}
+	_ = newPhi
+	if hd.idSyms == nil {
+		hd.idSyms = map[Sym]bool{}
+	}
+	for _, v := range hd.keep {
+		for sy := range v.t {
+			if !h.tab.global[sy] {
+				hd.idSyms[sy] = true
+			}
+		}
+	}
+	h.makeDirs(hd, localAnchors)
 	// evaluate every direction over every incoming state (phase I shared per state);
 	// the new bound of a direction is the maximum over the incoming states of this call
 	cur := make([]Q, len(hd.dirs))
@@ -809,6 +885,9 @@ func (h *hullCtx) hull(key int, blk int, ins []*AbsState, widen bool) *AbsState 
 					}
 					continue
 				}
+				if debugDir != nil {
+					debugDir(key, hd, i, v, in)
+				}
 				if !curHas[i] || v.Cmp(cur[i]) > 0 {
 					cur[i], curHas[i] = v, true
 				}
@@ -847,7 +926,7 @@ func (h *hullCtx) hull(key int, blk int, ins []*AbsState, widen bool) *AbsState 
 		}
 	}
 	if debugHull != nil {
-		debugHull(blk, hd, ins)
+		debugHull(key, hd, ins)
 	}
 	out := newAbs()
 	out.meta = meta
@@ -856,6 +935,39 @@ func (h *hullCtx) hull(key int, blk int, ins []*AbsState, widen bool) *AbsState 
 	}
 	for _, g := range h.globals {
 		out.st.le(g)
+	}
+	// constraints over symbols of unchanged values (and globals) that hold in every incoming state
+	{
+		allowed := map[Sym]bool{}
+		for _, v := range hd.keep {
+			for sy := range v.t {
+				allowed[sy] = true
+			}
+		}
+		{
+			for _, cns := range ins[0].st.cons {
+				ok := len(cns.t) > 0
+				for sy := range cns.t {
+					if !allowed[sy] && !h.tab.global[sy] {
+						ok = false
+						break
+					}
+				}
+				if !ok {
+					continue
+				}
+				key := cns.key()
+				for _, in := range ins[1:] {
+					if !in.st.keys[key] && !in.st.entails(cns) {
+						ok = false
+						break
+					}
+				}
+				if ok {
+					out.st.le(cns)
+				}
+			}
+		}
 	}
 	for k, v := range hd.keep {
 		out.vals[k] = v
@@ -874,6 +986,7 @@ func (h *hullCtx) hull(key int, blk int, ins []*AbsState, widen bool) *AbsState 
 
 var trivialBound = qPow2(40)
 
+var debugDir func(key int, hd *tmplHead, i int, v Q, in *AbsState)
 var traceContra bool
 var debugStack = func() []byte { return nil }
 
@@ -927,31 +1040,117 @@ func (h *hullCtx) addDir(hd *tmplHead, d Lin) {
 	hd.dropped = append(hd.dropped, false)
 }
 
-func (h *hullCtx) makeDirs(hd *tmplHead) {
-	var ps []Sym
-	for _, s := range hd.phiSym {
-		ps = append(ps, s)
+func (h *hullCtx) makeDirs(hd *tmplHead, anchors []Lin) {
+	type pv struct {
+		s     Sym
+		entry *Lin
 	}
-	sort.Slice(ps, func(i, j int) bool { return ps[i] < ps[j] })
+	var ps []pv
+	var keys []string
+	for k := range hd.phiSym {
+		keys = append(keys, k)
+	}
+	sort.Strings(keys)
+	usable := func(l Lin) bool {
+		for sy := range l.t {
+			if !h.tab.global[sy] && !hd.idSyms[sy] {
+				return false
+			}
+		}
+		return true
+	}
+	for _, k := range keys {
+		x := pv{s: hd.phiSym[k]}
+		if e, ok := hd.entryVal[k]; ok && usable(e) {
+			ev := e
+			x.entry = &ev
+		}
+		ps = append(ps, x)
+	}
+	pairMember := map[Sym]bool{}
+	if h.localAnchors || h.idPairs {
+		// symbols of unchanged values take part in all pair templates as well
+		var ids0 []Sym
+		for sy := range hd.idSyms {
+			ids0 = append(ids0, sy)
+		}
+		sort.Slice(ids0, func(i, j int) bool { return ids0[i] < ids0[j] })
+		for _, sy := range ids0 {
+			// in idPairs mode only loop-carried variables of enclosing loops take part in pairs
+			if h.localAnchors || strings.HasPrefix(h.tab.names[sy], "φ") {
+				ps = append(ps, pv{s: sy})
+				pairMember[sy] = true
+			}
+		}
+	}
 	for _, p := range ps {
-		lp := linS(p)
+		lp := linS(p.s)
 		h.addDir(hd, lp)
 		h.addDir(hd, lp.Neg())
-		for _, a := range h.anchors {
+		for _, a := range anchors {
 			h.addDir(hd, lp.Sub(a))
 			h.addDir(hd, a.Sub(lp))
+		}
+		if p.entry != nil && !p.entry.isConst() {
+			h.addDir(hd, lp.Sub(*p.entry))
+			h.addDir(hd, p.entry.Sub(lp))
+		}
+	}
+	// symbols of unchanged values: simple bounds only (their mutual relations are carried over syntactically)
+	var ids []Sym
+	for sy := range hd.idSyms {
+		if !pairMember[sy] {
+			ids = append(ids, sy)
+		}
+	}
+	sort.Slice(ids, func(i, j int) bool { return ids[i] < ids[j] })
+	for _, sy := range ids {
+		l := linS(sy)
+		h.addDir(hd, l)
+		h.addDir(hd, l.Neg())
+		for _, a := range anchors {
+			h.addDir(hd, l.Sub(a))
+			h.addDir(hd, a.Sub(l))
 		}
 	}
 	for i, p := range ps {
 		for _, q := range ps[i+1:] {
-			d := linS(p).Sub(linS(q))
+			d := linS(p.s).Sub(linS(q.s))
 			h.addDir(hd, d)
 			h.addDir(hd, d.Neg())
-			s := linS(p).Add(linS(q))
-			for _, a := range h.anchors {
-				h.addDir(hd, s.Sub(a))
-				h.addDir(hd, a.Sub(s))
+			sum := linS(p.s).Add(linS(q.s))
+			for _, a := range anchors {
+				h.addDir(hd, sum.Sub(a))
+				h.addDir(hd, a.Sub(sum))
 			}
+			if h.diffAnchors && !pairMember[p.s] && !pairMember[q.s] {
+				for _, a := range anchors {
+					h.addDir(hd, d.Sub(a))
+					h.addDir(hd, a.Sub(d))
+				}
+			}
+			if p.entry != nil && q.entry != nil {
+				ed := p.entry.Sub(*q.entry)
+				es := p.entry.Add(*q.entry)
+				if !ed.isConst() {
+					h.addDir(hd, d.Sub(ed))
+					h.addDir(hd, ed.Sub(d))
+				}
+				if !es.isConst() {
+					h.addDir(hd, sum.Sub(es))
+					h.addDir(hd, es.Sub(sum))
+				} else {
+					// constant entry sum: the plain sum direction (anchor 0)
+					h.addDir(hd, sum)
+					h.addDir(hd, sum.Neg())
+				}
+			}
+		}
+		// loop-carried variable against a symbol of an unchanged value
+		for _, sy := range ids {
+			d := linS(p.s).Sub(linS(sy))
+			h.addDir(hd, d)
+			h.addDir(hd, d.Neg())
 		}
 	}
 }
